@@ -168,7 +168,7 @@ def main():
     quick = rep.tier == 'quick'
     rx_obligations(rep)
     from hv import chx
-    chx.run_into(rep, 'c12', per_condition_timeout=120 if quick else 600)
+    chx.run_into(rep, 'c12', per_condition_timeout=400 if quick else 600)
     # ---- Scanner.__bool__ / linebreak(): exhaustive over two lines of <= 2 characters and every cursor position
     from hv import hidc as H     # noqa: F401
     from hidc.lexer.scanner import Scanner, SourceCode
